@@ -178,6 +178,37 @@ vals = [num(x) for x in re.findall(r'=\s*(0x[0-9a-fA-F]+)', blk.group(1))] if bl
 if not vals: errors.append('GnssStatus discriminants not found')
 defs.append(('gnss_statuses', 'list Z', '[' + '; '.join(map(str, vals)) + ']', 'core/gnss.rs GnssStatus'))
 
+# ---- sensor PGNs, engine parameter groups
+t = src('driver/net/encoder.rs')
+want('encoder_pgn', t, r'const ENCODER_PGN:\s*PGN\s*=\s*PGN::ProprietaryB\(([\d_]+)\)', 'encoder.rs ENCODER_PGN')
+t = src('driver/net/inclino.rs')
+want('inclino_pgn', t, r'const INCLINOMETER_PGN:\s*PGN\s*=\s*PGN::ProprietaryB\(([\d_]+)\)', 'inclino.rs INCLINOMETER_PGN')
+# crate j1939 0.1.33 PGN names -> numbers (modelled crate; the pinned version is checked below)
+J1939_PGN = {'TorqueSpeedControl1': 0, 'ElectronicBrakeController1': 61441, 'ElectronicEngineController2': 61443,
+             'ElectronicEngineController1': 61444, 'TANKInformation1': 65110, 'FanDrive': 65213,
+             'EngineFluidLevelPressure2': 65243, 'ElectronicEngineController3': 65247, 'VehicleDistance': 65248,
+             'Shutdown': 65252, 'FuelConsumption': 65257, 'EngineTemperature1': 65262, 'EngineFluidLevelPressure1': 65263,
+             'PowerTakeoffInformation': 65264, 'FuelEconomy': 65266, 'AmbientConditions': 65269,
+             'InletExhaustConditions1': 65270, 'VehicleElectricalPower1': 65271}
+t = src('driver/net/engine.rs')
+m = re.search(r'impl Parsable<EngineMessage> for EngineManagementSystem\s*\{(.*?)\nimpl J1939Unit', t, re.S)
+if m:
+    names = re.findall(r'PGN::(\w+)\s*=>', m.group(1))
+    unknown = [n for n in names if n not in J1939_PGN]
+    if unknown or not names:
+        errors.append('engine.rs parse: parameter groups not in the modelled table: %s' % unknown)
+    else:
+        rest = [J1939_PGN[n] for n in names if n not in ('TorqueSpeedControl1', 'ElectronicEngineController1')]
+        defs.append(('ems_alive_pgns', 'list Z', '[' + '; '.join(map(str, rest)) + ']', 'engine.rs parse arms other than TSC1/EEC1'))
+        if 'TorqueSpeedControl1' not in names or 'ElectronicEngineController1' not in names:
+            errors.append('engine.rs parse: TSC1 / EEC1 arms not found')
+else:
+    errors.append('engine.rs: Parsable<EngineMessage> impl not found')
+lock = src('Cargo.lock', repo)
+m = re.search(r'name = "j1939"\nversion = "([^"]+)"', lock)
+if not m or m.group(1) != '0.1.33':
+    errors.append('Cargo.lock no longer pins j1939 0.1.33 (the modelled crate version): %s' % (m.group(1) if m else None))
+
 EXTRA = os.path.join(os.path.dirname(os.path.abspath(__file__)), 'rs2v_extra.py')
 if os.path.exists(EXTRA):
     exec(compile(open(EXTRA).read(), EXTRA, 'exec'))
